@@ -1966,7 +1966,12 @@ void SZ_compress_args_double_NoCkRngeNoGzip_3D_pwr_pre_log(unsigned char** newBy
 void SZ_compress_args_double_NoCkRngeNoGzip_1D_pwr_pre_log_MSST19(unsigned char** newByteData, double *oriData, double pwrErrRatio, size_t dataLength, size_t *outSize, double valueRangeSize, double medianValue_f,
 																unsigned char* signs, bool* positive, double min, double max, double nearZero){
 	double multiplier = pow((1+pwrErrRatio), -3.0001);
-	for(int i=0; i<dataLength; i++){
+	//zeros are represented by a magnitude below the zero threshold: in a copy, the caller's array is left as it is
+	//(it is also what the raw-copy fallback below must store)
+	double* callerData = oriData;
+	oriData = (double*)malloc(dataLength*sizeof(double));
+	memcpy(oriData, callerData, dataLength*sizeof(double));
+	for(size_t i=0; i<dataLength; i++){
 		if(oriData[i] == 0){
 			oriData[i] = nearZero * multiplier;
 		}
@@ -1992,9 +1997,10 @@ void SZ_compress_args_double_NoCkRngeNoGzip_1D_pwr_pre_log_MSST19(unsigned char*
 
 	convertTDPStoFlatBytes_double(tdps, newByteData, outSize);
 	if(*outSize>3 + MetaDataByteLength_double + exe_params->SZ_SIZE_TYPE + 1 + sizeof(double)*dataLength)
-		SZ_compress_args_double_StoreOriData(oriData, dataLength, newByteData, outSize);
+		SZ_compress_args_double_StoreOriData(callerData, dataLength, newByteData, outSize);
 
 	free_TightDataPointStorageD(tdps);
+	free(oriData);
 }
 
 void SZ_compress_args_double_NoCkRngeNoGzip_2D_pwr_pre_log_MSST19(unsigned char** newByteData, double *oriData, double pwrErrRatio, size_t r1, size_t r2, size_t *outSize, double valueRangeSize,
@@ -2003,7 +2009,12 @@ void SZ_compress_args_double_NoCkRngeNoGzip_2D_pwr_pre_log_MSST19(unsigned char*
 	size_t dataLength = r1 * r2;
 
 	double multiplier = pow((1+pwrErrRatio), -3.0001);
-	for(int i=0; i<dataLength; i++){
+	//zeros are represented by a magnitude below the zero threshold: in a copy, the caller's array is left as it is
+	//(it is also what the raw-copy fallback below must store)
+	double* callerData = oriData;
+	oriData = (double*)malloc(dataLength*sizeof(double));
+	memcpy(oriData, callerData, dataLength*sizeof(double));
+	for(size_t i=0; i<dataLength; i++){
 		if(oriData[i] == 0){
 			oriData[i] = nearZero * multiplier;
 		}
@@ -2029,9 +2040,10 @@ void SZ_compress_args_double_NoCkRngeNoGzip_2D_pwr_pre_log_MSST19(unsigned char*
 
     convertTDPStoFlatBytes_double(tdps, newByteData, outSize);
     if(*outSize>3 + MetaDataByteLength_double + exe_params->SZ_SIZE_TYPE + 1 + sizeof(double)*dataLength)
-            SZ_compress_args_double_StoreOriData(oriData, dataLength, newByteData, outSize);
+            SZ_compress_args_double_StoreOriData(callerData, dataLength, newByteData, outSize);
 
     free_TightDataPointStorageD(tdps);
+	free(oriData);
 }
 
 void SZ_compress_args_double_NoCkRngeNoGzip_3D_pwr_pre_log_MSST19(unsigned char** newByteData, double *oriData, double pwrErrRatio, size_t r1, size_t r2, size_t r3, size_t *outSize, double valueRangeSize, unsigned char* signs, bool* positive, double min, double max, double nearZero){
@@ -2039,7 +2051,12 @@ void SZ_compress_args_double_NoCkRngeNoGzip_3D_pwr_pre_log_MSST19(unsigned char*
 	size_t dataLength = r1 * r2 * r3;
 
 	double multiplier = pow((1+pwrErrRatio), -3.0001);
-	for(int i=0; i<dataLength; i++){
+	//zeros are represented by a magnitude below the zero threshold: in a copy, the caller's array is left as it is
+	//(it is also what the raw-copy fallback below must store)
+	double* callerData = oriData;
+	oriData = (double*)malloc(dataLength*sizeof(double));
+	memcpy(oriData, callerData, dataLength*sizeof(double));
+	for(size_t i=0; i<dataLength; i++){
 		if(oriData[i] == 0){
 			oriData[i] = nearZero * multiplier;
 		}
@@ -2066,7 +2083,8 @@ void SZ_compress_args_double_NoCkRngeNoGzip_3D_pwr_pre_log_MSST19(unsigned char*
 
 	convertTDPStoFlatBytes_double(tdps, newByteData, outSize);
 	if(*outSize>3 + MetaDataByteLength_double + exe_params->SZ_SIZE_TYPE + 1 + sizeof(double)*dataLength)
-		SZ_compress_args_double_StoreOriData(oriData, dataLength, newByteData, outSize);
+		SZ_compress_args_double_StoreOriData(callerData, dataLength, newByteData, outSize);
 
 	free_TightDataPointStorageD(tdps);
+	free(oriData);
 }
